@@ -18,6 +18,20 @@ def cfgOfJson (m : ℕ) (j : Json) : Except String Cfg := do
            userFilter := ← natOf j "filter", keepHeralds := ← boolOf j "keepHeralds",
            pnr := ← boolOf j "pnr" }
 
+def detOfJson (j : Json) : Except String Det := do
+  match j with
+  | .null => return .none
+  | .str "pnr" => return .pnr
+  | .str "thr" => return .thr
+  | .arr rows =>
+    let rs ← rows.toList.mapM fun r => do
+      (← r.getArr?).toList.mapM fun e => do
+        match (← e.getArr?).toList with
+        | [a, b] => pure ((← a.getNat?), (← ratOfJson b))
+        | _ => throw "bad kernel entry"
+    return .table rs
+  | _ => throw "bad detector"
+
 /-- the engine on the groups that occur: each distinct group is evaluated once -/
 def engTable {m : ℕ} (U : Matrix (Fin m) (Fin m) GQ) (members : List Member) : List (Fock × D) :=
   (members.flatMap (·.groups)).eraseDups.map fun s => (s, probsFock U s)
@@ -33,8 +47,14 @@ def handle (j : Json) : Json :=
       let c ← cfgOfJson m (← j.getObjVal? "cfg")
       let tab := engTable U members
       let eng : Fock → D := fun s => (tab.lookup s).getD []
-      let out := probsSvd eng c members
-      let fullD := full eng m members
+      let ds ← match j.getObjVal? "dets" with
+        | .ok (.arr a) => a.toList.mapM detOfJson
+        | .ok .null => pure []
+        | .ok _ => throw "bad dets"
+        | .error _ => pure []
+      if !ds.isEmpty && ds.length ≠ m then throw "bad number of detectors"
+      let out := probsSvdDet eng c ds members
+      let fullD := detectedFull eng m ds members
       let sc := cond c
       return Json.mkObj [
         ("model", Json.mkObj [("results", distToJson out.results), ("phys", ratToJson out.phys),
